@@ -113,6 +113,11 @@ func genC16(o *Out, rng *rand.Rand, tier string) {
 			if rng.Intn(8) == 0 {
 				r.AddOption(dhcpv6.OptInterfaceID(randBytes(rng, 2))) // a second one: the first counts
 			}
+			for k := rng.Intn(3); k > 0 && rng.Intn(2) == 0; k-- {
+				// whatever else relays put at their level (echo request, link-layer address, vendor options, subscriber id ...):
+				// the relay-reply mirrors addresses, interface-id and remote-id, and nothing else decides what it mirrors
+				r.AddOption(randOpt6(rng, pick(rng, 43, 43, 79, 17, 38, 11, 200, untypedCodes6[rng.Intn(len(untypedCodes6))]), 1))
+			}
 			if rng.Intn(3) == 0 { // options in front of the relay message option
 				r.Options.Options = append(dhcpv6.Options{dhcpv6.OptRelayPort(uint16(rng.Intn(65536)))}, r.Options.Options...)
 			}
